@@ -429,9 +429,8 @@ func (a *NodeActor) runGossipRoundWithTargets(ctx vivid.ActorContext, targets []
 		if !a.gossipRateLimiter.Allow() {
 			break
 		}
-		if !a.shouldSendGossipTo(snap.VersionVector, addr) {
-			continue
-		}
+		// 周期性 Gossip 同时承担心跳职责（对端据此刷新本节点的 LastSeen），不可按“对方合并后不会变更”跳过：
+		// 否则视图一致后所有节点都不再发送，LastSeen 永不刷新，存活成员会被故障检测反复移除
 		ref, err := ctx.System().CreateRef(addr, "/@cluster")
 		if err != nil {
 			continue
